@@ -86,7 +86,8 @@ def _shard(arg):
     @st.composite
     def cases(draw):
         n_b = draw(st.sampled_from([1, 2, 3, 4, 5, 6, 7, 8, 9, 10, 12]))
-        n_o = draw(st.integers(1, 30))
+        # mostly small direction grids, sometimes enough positions to pass 256 / 512 position cells
+        n_o = draw(st.integers(1, 30)) if draw(st.integers(0, 3)) else draw(st.integers(60, 180))
         n_t = draw(st.integers(1, 4))
         rad = draw(st.lists(st.integers(1, 9999), min_size=n_t, max_size=n_t, unique=True))
         digits = draw(st.sampled_from([1, 2, 3, 3, 13]))
@@ -98,7 +99,8 @@ def _shard(arg):
         radii = list(dict.fromkeys(radii))
         n = n_b * n_o * len(radii)
         cart = draw(st.booleans()) and n_o >= 4
-        ix = st.one_of(st.none(), st.lists(st.integers(0, n - 1), min_size=0, max_size=20))
+        ix = st.one_of(st.none(), st.lists(st.integers(0, n - 1), min_size=0, max_size=20),
+                       st.lists(st.integers(max(0, n - 40), n - 1), min_size=1, max_size=20))  # also the tail of the grid
         return {"b_alg": draw(st.sampled_from(["cube4D", "randomQ"])), "n_b": n_b,
                 "o_alg": draw(st.sampled_from(["ico", "cube3D", "randomS"])), "n_o": n_o, "radii": radii,
                 "cartesian": cart, "index_sets": draw(st.lists(ix, min_size=1, max_size=5))}
@@ -112,6 +114,7 @@ def _shard(arg):
             res.case(sample=case, nontrivial=case["n_b"] >= 2 and case["n_o"] >= 2 and nt >= 2, key=spec,
                      classes=[f"b={case['b_alg']}", f"o={case['o_alg']}", "cartesian" if case["cartesian"] else "spherical",
                               f"n_t={nt}", "n_b=1" if case["n_b"] == 1 else "n_b>1"]
+                     + (["more_than_256_positions"] if case["n_o"] * nt > 256 else [])
                      + (["radii_with_13_decimals"] if any(len(r.split(".")[1]) > 6 for r in case["radii"]) else []))
             if msgs:
                 fail(case, "; ".join(msgs))
@@ -129,7 +132,7 @@ def run(tier):
     total = 480 if tier == "quick" else 8000
     res = merge_results(pmap(_shard, [(s, total // 16) for s in range(16)]))
     rule = ("Hypothesis: rotation algorithm cube4D/randomQ with n_b in {1..10,12}, direction algorithm ico/cube3D/randomS with "
-            "n_o in 1..30, 1..4 distinct positive radii as decimals with 1..3 or 13 decimals (unsorted), both position modes, 1..5 index sets (None or "
+            "n_o in 1..30 or 60..180, 1..4 distinct positive radii as decimals with 1..3 or 13 decimals (unsorted), both position modes, 1..5 index sets (None or "
             "lists of up to 20 in-range indices with repeats, passed as list and as array). Non-trivial = n_b, n_o, n_t all "
             ">= 2; distinct = distinct grid specification.")
     return res, rule, {"assumptions": ["component grids come from separately constructed sphere-grid objects (their own "
